@@ -90,6 +90,14 @@ def observe(g, plan, sc, ref):
             if len(out) != full_before and not omn:
                 vio.append({"sig": "C12:not-at-boundary", "what": "stopped inside a non-Markov pre-terminal under %r" % plan, "plan": replay_plan})
     om = omn[-1] if omn else None
+    if 0 in plan and has_q:
+        # the same events typed before anything else happened (delivered the moment the keyboard thread is started,
+        # wherever the session starts it): a quit requested then is honoured like one requested before the first pop
+        r2 = sched.run_session(g, plan, sc, early=True)
+        if r2["out"] != out or len(r2["saves"]) != len(r["saves"]):
+            vio.append({"sig": "C12:early-quit-lost", "what": "events %r delivered as soon as the keyboard thread exists: %d guesses and %d saves, "
+                        "but %d guesses and %d saves when delivered before the first pop (a quit typed during start-up is dropped or handled "
+                        "differently)" % (plan, len(r2["out"]), len(r2["saves"]), len(out), len(r["saves"])), "plan": dict(replay_plan, early=True)})
     return (plan, len(out), saved, om, finished), vio
 
 
@@ -269,7 +277,7 @@ def replay(ctx, data):
     sc = common.scratch()
     g = impl_next.load_grammar(rs, sc)
     ref = reference(g, sc)
-    plan = {int(k): v for k, v in inp["plan"].items()}
+    plan = {int(k): v for k, v in inp["plan"].items() if k != "early"}
     obs, v = observe(g, plan, sc, ref)
     for x in v:
         x["replay"] = {"ruleset": rs, "plan": x.pop("plan")}
